@@ -77,6 +77,12 @@ def call_closure(prog, clo, args, call, depth, inline=False):
     if isinstance(clo, tuple) and clo and clo[0] == "fnitem" and prog is not None and clo[1] in prog._bodies_raw:
         fb = prog.body(clo[1])
         return run(fb, 0, {i + 1: a for i, a in enumerate(args)}, call=call, prog=prog, depth=depth + 1, inline=inline)
+    if isinstance(clo, tuple) and clo and clo[0] == "fnitem" and prog is not None:
+        # a tuple-struct constructor used as a function (`iter.map(Wrapper)`)
+        from . import mir as _mir
+        ad_ = prog.adts.get(_mir.strip_generics(clo[1]))
+        if ad_ is not None and ad_["kind"] == "struct" and len(ad_["variants"][0]["fields"]) == len(args):
+            return ("variant", clo[1].split("::")[-1], list(args), 0, tuple(f["name"] for f in ad_["variants"][0]["fields"]), _mir.strip_generics(clo[1]))
     if isinstance(clo, tuple) and clo and clo[0] == "fnitem" and call is not None:
         # a foreign function item (e.g. `Into::into`, a tuple-struct constructor): let the handler decide
         v = call(clo[1], list(args), {"callee": clo[1], "args": [], "gargs": []})
@@ -184,6 +190,27 @@ def option_builtin(prog, name, args, call, depth, inline=False):
         return call_closure(prog, args[2], [val], call, depth, inline) if is_some else call_closure(prog, args[1], [], call, depth, inline)
     if m == "or_else" and len(args) == 2:
         return o if is_some else call_closure(prog, args[1], [], call, depth, inline)
+    if m == "or" and len(args) == 2:
+        return o if is_some else args[1]
+    if m == "ok_or" and len(args) == 2:
+        return ("variant", "Ok", [val], 0, ("0",), "core::result::Result") if is_some else ("variant", "Err", [args[1]], 1, ("0",), "core::result::Result")
+    if m == "ok_or_else" and len(args) == 2:
+        return ("variant", "Ok", [val], 0, ("0",), "core::result::Result") if is_some else \
+            ("variant", "Err", [call_closure(prog, args[1], [], call, depth, inline)], 1, ("0",), "core::result::Result")
+    if m == "filter" and len(args) == 2:
+        if not is_some:
+            return NONE
+        k_ = call_closure(prog, args[1], [val], call, depth, inline)
+        if k_ in (True, 1):
+            return o
+        if k_ in (False, 0):
+            return NONE
+        raise Unrecognised("Option::filter with an undecided predicate")
+    if m == "zip" and len(args) == 2 and _is_opt(args[1]):
+        return some(("tuple", [val, args[1][2][0]])) if is_some and args[1][1] == "Some" else NONE
+    if m == "xor" and len(args) == 2 and _is_opt(args[1]):
+        b_ = args[1][1] == "Some"
+        return o if is_some and not b_ else (args[1] if b_ and not is_some else NONE)
     return None
 
 
